@@ -88,7 +88,7 @@ int fiber_context_init(fiber_context_t* c, size_t sz, fiber_run_function_t f, vo
 }
 int fiber_context_init_from_thread(fiber_context_t* c) { memset(c, 0, sizeof *c); c->is_thread = 1; return FIBER_SUCCESS; }
 /* the stack of a fiber is released here in the real runtime: reported as a monitor-only observation
- * (tid 960 929 fiber), so that "the stack is reclaimed exactly once" can be judged on the T1 machine */
+ * (tid 960 979 fiber), so that "the stack is reclaimed exactly once" can be judged on the T1 machine */
 void fiber_context_destroy(fiber_context_t* c) {
   fiber_t* f = (fiber_t*)((char*)c - offsetof(fiber_t, context));
   int t = t1_tid_of(f);
